@@ -95,7 +95,32 @@ func (fx *fixture) observe() leakObs {
 		sort.Strings(o.extraFiles)
 	}
 	o.fd, o.classes, o.cacheFDs = fx.fdClasses()
+	o.cacheFDs = fx.newCacheFDs(o.cacheFDs)
 	return o
+}
+
+// newCacheFDs filters out descriptors on cache files that were reported before
+// (a leaked descriptor stays until the process ends; it must not be blamed on
+// later requests).
+func (fx *fixture) newCacheFDs(files []string) []string {
+	seen := map[string]int{}
+	var out []string
+	for _, f := range files {
+		seen[f]++
+		if seen[f] > fx.leakedFDs[f] {
+			out = append(out, f)
+		}
+	}
+	return out
+}
+
+func (fx *fixture) rememberCacheFDs(files []string) {
+	if fx.leakedFDs == nil {
+		fx.leakedFDs = map[string]int{}
+	}
+	for _, f := range files {
+		fx.leakedFDs[f]++
+	}
 }
 
 func (o leakObs) persistentTrouble() bool {
@@ -225,6 +250,7 @@ func (fx *fixture) leakCheck(when string) {
 		clean = false
 		fx.violation("C14:leak:fd:cache-file", fmt.Sprintf("the server still holds %d open descriptor(s) on cache files with no request in flight", len(o.cacheFDs)),
 			map[string]any{"when": when, "open_cache_files": head(o.cacheFDs, 8), "requests_since_last_clean_check": fx.windowSummary()})
+		fx.rememberCacheFDs(o.cacheFDs)
 	}
 	point := map[string]any{"requests": fx.fuzzOps, "fd": o.fd, "baseline_fd": fx.base.fd, "classes": o.classes}
 	// Descriptor growth: N vs 2N. More descriptors than the baseline after N
@@ -300,11 +326,16 @@ func (fx *fixture) leakCheck(when string) {
 // once the server has noticed the abort no descriptor may point into the cache
 // directory (the child is otherwise idle, so nothing else opens cache files).
 func (fx *fixture) cacheFDProbe(o *op) {
-	deadline := time.Now().Add(10 * time.Second)
+	wait := 10 * time.Second
+	if len(fx.leakedFDs) >= 3 {
+		wait = 2 * time.Second // established three times with the generous period on this child; keep exploring
+	}
+	deadline := time.Now().Add(wait)
 	sleep := 2 * time.Millisecond
 	var files []string
 	for {
 		_, _, files = fx.fdClasses()
+		files = fx.newCacheFDs(files)
 		if len(files) == 0 {
 			fx.r.Count("abort-probe.clean")
 			return
@@ -321,8 +352,9 @@ func (fx *fixture) cacheFDProbe(o *op) {
 		return
 	}
 	fx.violation("C14:leak:fd:cache-file:"+o.ep+":"+o.gen,
-		fmt.Sprintf("%d descriptor(s) on cache files are still open 10 s after the client aborted the transfer and no other request is in flight", len(files)),
+		fmt.Sprintf("%d descriptor(s) on cache files are still open %v after the client aborted the transfer and no other request is in flight", len(files), wait),
 		map[string]any{"open_cache_files": head(files, 8)})
+	fx.rememberCacheFDs(files)
 }
 
 func head(s []string, n int) []string {
